@@ -33,6 +33,8 @@ struct Oracle {
 	delivered: Vec<String>,
 	/// completions seen before the request reached the wire (gate shut): (op, id of the completing response)
 	deferred: Vec<(usize, Value)>,
+	/// batch op -> the ids of its entries, as written on the wire
+	batch_ids: BTreeMap<usize, Vec<Value>>,
 	/// every request id on the wire that has not been answered yet (calls, subscribe / unsubscribe calls, batch entries)
 	inflight: InFlight,
 }
@@ -69,6 +71,9 @@ impl Oracle {
 				return Err(format!("a request appeared on the wire that no operation accounts for: {text}"));
 			}
 			let op = self.unsent.remove(0);
+			if let Value::Array(a) = &v {
+				self.batch_ids.insert(op, a.iter().filter_map(|e| e.get("id").cloned()).collect());
+			}
 			if self.wire_id.values().any(|x| *x == id) {
 				return Err(format!("request id {id} written twice"));
 			}
@@ -208,6 +213,35 @@ fn run_one(out: &mut Out, lines: &[String]) {
 					verdict = Err(e);
 				}
 			}
+			// arrays: every element has the effect it would have alone, or the whole array is refused
+			if let (Some(d), true) = (&delivered, w[1] == "deliver") {
+				if array_has_response(d) {
+					nontrivial = true;
+					let batch_done = obs.comps.iter().any(|(op, _)| orc.kinds.get(*op) == Some(&Kind::Batch));
+					if obs.fatal.is_none() && !batch_done && verdict.is_ok() {
+						verdict = Err(format!("the responses inside the array {d} took no effect: no batch completed and the connection was not given up"));
+					}
+					// a complete answer to a pending batch (each of its ids once), everything else in the array a server push:
+					// that batch completes
+					if let Ok(Value::Array(a)) = serde_json::from_str::<Value>(d) {
+						let rids: Vec<Value> = a.iter().filter(|e| msg_kind(e) == MsgKind::Response).filter_map(|e| e.get("id").cloned()).collect();
+						let rest_pushes = a.iter().all(|e| msg_kind(e) != MsgKind::Other);
+						for (op, ids) in &orc.batch_ids {
+							let mut x: Vec<String> = ids.iter().map(|v| v.to_string()).collect();
+							let mut y: Vec<String> = rids.iter().map(|v| v.to_string()).collect();
+							x.sort();
+							y.sort();
+							let completed_now = obs.comps.iter().any(|(o, _)| o == op);
+							if x == y && rest_pushes && (completed_now || !orc.done.contains_key(op)) {
+								out.count(if a.len() > rids.len() { "mixed.complete-reply-with-pushes" } else { "mixed.complete-reply-alone" });
+								if !obs.comps.iter().any(|(o, c)| o == op && matches!(c, Comp::Batch { .. } | Comp::E(_))) && verdict.is_ok() {
+									verdict = Err(format!("batch {op} was answered completely by {d} (its responses share the array with server pushes) but did not complete: {}", obs.render()));
+								}
+							}
+						}
+					}
+				}
+			}
 			if let Some(f) = &obs.fatal {
 				nontrivial = true;
 				out.count(if f.starts_with("notpending") { "fatal.notpending" } else { "fatal.other" });
@@ -295,6 +329,11 @@ fn correct_answer(rng: &mut Rng, o: &Open, str_ids: bool, subs: &mut Vec<String>
 			for i in (1..es.len()).rev() {
 				let j = rng.below(i as u64 + 1) as usize;
 				es.swap(i, j);
+			}
+			if rng.chance(1, 3) {
+				// the reply shares its array with server pushes (subscription / close / method notifications)
+				let sids: Vec<String> = subs.iter().map(|s| format!("\"{s}\"")).collect();
+				es = mix_pushes(rng, es, &sids);
 			}
 			(format!("[{}]", es.join(",")), None)
 		}
